@@ -70,7 +70,7 @@ def from_lin(c0, coefs):
 
 
 def is_numeric(t):
-    return t[0] in ('int', 'lin', 'len', 'at', 'be', 'le', 'band', 'bor', 'bxor', 'shl', 'shr', 'trunc') or NUMERIC.get(t, False)
+    return t[0] in ('int', 'lin', 'len', 'at', 'be', 'le', 'band', 'bor', 'bxor', 'shl', 'shr', 'trunc', 'byte') or NUMERIC.get(t, False)
 
 
 BOUNDS = {}     # symbolic integer term -> (lo, hi)
@@ -289,7 +289,7 @@ def byte_of(s, k):
         return t[1][k]
     if s[0] == 'tole' and t[0] == 'le' and len(t[1]) == w:
         return t[1][k]
-    return ('at', s, I(k))
+    return mk_byte(w - 1 - k if s[0] == 'tobe' else k, t)
 
 
 def mk_slice(s, lo, hi):
@@ -478,6 +478,11 @@ def mk_be(byte_terms):
             return src[2]
     if len(bs) == 1:
         return bs[0]
+    if all(b[0] == 'byte' and b[2] == bs[0][2] and b[1] == len(bs) - 1 - i for i, b in enumerate(bs)):
+        x = bs[0][2]
+        from_width = {'u16': 2, 'u32': 4, 'u64': 8, 'usize': 8, 'u128': 16}.get(TYPES.get(x))
+        if from_width == len(bs):
+            return x
     return ('be', bs)
 
 
@@ -506,7 +511,68 @@ def mk_tobytes(kind, width, t):
     return (kind, width, t)
 
 
+def mk_byte(k, x):
+    """byte number k (0 = least significant) of the integer x:  (x >> 8k) & 0xFF"""
+    if x[0] == 'int':
+        return I((x[1] >> (8 * k)) & 0xFF)
+    if x[0] == 'be' and k < len(x[1]):
+        return x[1][len(x[1]) - 1 - k]
+    if x[0] == 'shr' and x[2][0] == 'int' and x[2][1] % 8 == 0:
+        return mk_byte(k + x[2][1] // 8, x[1])
+    if x[0] == 'byte':
+        return x if k == 0 else I(0)
+    if k == 0 and is_byte(x):
+        return x
+    return ('byte', k, x)
+
+
+def is_byte(t):
+    if t[0] == 'byte':
+        return True
+    if t[0] == 'at':
+        return True
+    if t[0] == 'band' and t[2][0] == 'int' and 0 <= t[2][1] <= 255:
+        return True
+    if t[0] == 'int':
+        return 0 <= t[1] <= 255
+    return TYPES.get(t) == 'u8'
+
+
+def _byte_parts(t):
+    """t as an or-combination of bytes shifted by multiples of 8 -> {shift: byte term} (None if not of that shape)"""
+    if t[0] == 'bor':
+        x, y = _byte_parts(t[1]), _byte_parts(t[2])
+        if x is None or y is None or set(x) & set(y):
+            return None
+        x.update(y)
+        return x
+    if t[0] == 'shl' and t[2][0] == 'int' and t[2][1] % 8 == 0:
+        inner = _byte_parts(t[1])
+        if inner is None:
+            return None
+        return {k + t[2][1]: v for k, v in inner.items()}
+    if t[0] == 'be':
+        n = len(t[1])
+        return {8 * (n - 1 - i): b for i, b in enumerate(t[1])}
+    if is_byte(t) and t[0] != 'int':
+        return {0: t}
+    return None
+
+
+def _assemble(parts):
+    if parts is None or len(parts) < 2:
+        return None
+    shifts = sorted(parts)
+    if shifts != [8 * i for i in range(len(shifts))]:
+        return None
+    return mk_be([parts[s] for s in reversed(shifts)])
+
+
 def bitop(op, a, b):
+    if op == 'bor' and not (a[0] == 'int' and b[0] == 'int'):
+        r = _assemble(_byte_parts(('bor', a, b)))
+        if r is not None:
+            return r
     if a[0] == 'int' and b[0] == 'int':
         if op == 'band': return I(a[1] & b[1])
         if op == 'bor': return I(a[1] | b[1])
@@ -517,6 +583,7 @@ def bitop(op, a, b):
         elif b[0] != 'int':
             a, b = sorted((a, b), key=key)
         if op == 'band' and b == I(0): return I(0)
+        if op == 'band' and b == I(0xFF): return mk_byte(0, a)
         if op == 'bor' and b == I(0): return a
         if op == 'band' and a[0] == 'band' and a[2][0] == 'int' and b[0] == 'int':
             return bitop('band', a[1], I(a[2][1] & b[1]))
@@ -535,6 +602,11 @@ def shift(op, a, k, bits=None):
 def mk_adt(path, variant, fields):
     """fields: iterable of (name, term)"""
     fields = list(fields)
+    # eta: rebuilding a variant from its own projections  V(x<V>.f0, x<V>.f1, ..)  is x itself
+    if fields and all(v[0] == 'vfield' and v[2] == variant and v[3] == n for n, v in fields):
+        base = fields[0][1][1]
+        if all(v[1] == base for _, v in fields) and TYPES.get(base, path) == path:
+            return base
     return ('adt', path, variant, ','.join(n for n, _ in fields), tuple(v for _, v in fields))
 
 
@@ -592,6 +664,7 @@ def short(t, depth=0):
         sym = {'band': '&', 'bor': '|', 'bxor': '^', 'shl': '<<', 'shr': '>>'}[k]
         return '(%s %s %s)' % (short(t[1]), sym, short(t[2]) if not (t[2][0] == 'int' and k in ('band', 'bor')) else hex(t[2][1]))
     if k == 'trunc': return 'trunc%d(%s)' % (t[1], short(t[2]))
+    if k == 'byte': return 'byte%d(%s)' % (t[1], short(t[2]))
     if k == 'ge0': return '%s >= 0' % short(t[1])
     if k == 'eq0': return '%s == 0' % short(t[1])
     if k == 'not': return '!(%s)' % short(t[1])
@@ -658,7 +731,7 @@ def map_children(t, f):
     return tuple(out)
 
 
-TAGS = {'int', 'lin', 'bytes', 'param', 'field', 'vfield', 'discr', 'adt', 'tuple', 'arr', 'repeat', 'len', 'at',
+TAGS = {'byte', 'int', 'lin', 'bytes', 'param', 'field', 'vfield', 'discr', 'adt', 'tuple', 'arr', 'repeat', 'len', 'at',
         'slice', 'concat', 'be', 'le', 'tobe', 'tole', 'band', 'bor', 'bxor', 'shl', 'shr', 'trunc', 'cmp', 'ge0',
         'eq0', 'not', 'and', 'or', 'eq', 'isvar', 'call', 'ref', 'mu', 'opaque', 'closure', 'fn'}
 
@@ -703,6 +776,10 @@ def rebuild(t, sub_):
             r = mk_tobytes(k, x[1], go(x[2]))
         elif k in ('band', 'bor', 'bxor'):
             r = bitop(k, go(x[1]), go(x[2]))
+        elif k in ('shl', 'shr'):
+            r = shift(k, go(x[1]), go(x[2]))
+        elif k == 'byte':
+            r = mk_byte(x[1], go(x[2]))
         elif k == 'ge0':
             r = ge0(go(x[1]))
         elif k == 'eq0':
